@@ -849,7 +849,9 @@ CallBuiltin(nm, args0, site, cx) ==
                            IF ks = <<>> THEN Ok(Undef, st)
                            ELSE Ok(SeqValue([i \in 1..Len(ks) |-> Str(ks[i])], FALSE), IF MaxMembers(a[1]) >= 2 THEN Taint(st) ELSE st)
     [] nm = "lookup" -> IF n # 2 THEN BadArgs(st) ELSE IF ~IsStr(A(2)) THEN BadArgs(st)
-                        ELSE LET r == NameOn(a[1], a[2].s, st.md) IN
+                        \* K4: "$lookup(o, k) equals the field selection of k on o": on an array of objects the members found are
+                        \* one flat sequence (array-valued members are spliced, as a path step does); on an object it is the member
+                        ELSE LET r == NameOn(a[1], a[2].s, IF IsArr(a[1]) THEN [st.md EXCEPT !.name_unit = FALSE] ELSE st.md) IN
                              IF IsUndef(r) THEN Top("$lookup of a missing member is open", st) ELSE Ok(r, st)
     [] nm = "spread" -> IF n # 1 THEN BadArgs(st)
                         ELSE IF ~(IsObj(a[1]) \/ IsArr(a[1])) THEN Ok(a[1], st)
